@@ -15,6 +15,13 @@ namespace osmium { namespace detail {
 } }
 
 #include <vsched/vsched.hpp>
+
+// hook H8 (build h05cap): the parsers' initial buffer capacity is chosen per execution
+static std::size_t g_cap = 0;
+#ifdef OSMIUM_VERIF_DYNAMIC_BUFFER_SIZE
+extern "C" std::size_t osmium_verif_dynamic_buffer_size(std::size_t compiled_in_size) { return g_cap ? g_cap : compiled_in_size; }
+#endif
+
 #include <ref/osmdata.hpp>
 
 #include <osmium/builder/osm_object_builder.hpp>
@@ -44,11 +51,12 @@ struct Cfg {
     std::string qsize; // "" = default, else value for all three OSMIUM_MAX_*_QUEUE_SIZE
     int mask;          // osm_entity_bits (node 1, way 2, relation 4, changeset 8)
     bool single, meta, pbf_pool, call_header;
+    int cap = 0;         // > 0: initial capacity of the parsers' buffers (hook H8, build h05cap)
     bool big = false;    // the data set with objects larger than the parser buffers (first in their blocks)
     bool slow = false;   // slow consumer: before every read() it waits until no other thread can run (queues full, back-pressure everywhere)
     std::string name() const {
         std::ostringstream s;
-        s << fmt << ",pool=" << pool << ",q=" << (qsize.empty() ? "def" : qsize) << ",mask=" << mask << (single ? ",single" : ",any") << (meta ? ",meta" : ",nometa") << (pbf_pool ? "" : ",pbfpool=off") << (call_header ? ",header" : "") << (slow ? ",slow" : "") << (big ? ",big" : "");
+        s << fmt << ",pool=" << pool << ",q=" << (qsize.empty() ? "def" : qsize) << ",mask=" << mask << (single ? ",single" : ",any") << (meta ? ",meta" : ",nometa") << (pbf_pool ? "" : ",pbfpool=off") << (call_header ? ",header" : "") << (slow ? ",slow" : "") << (big ? ",big" : "") << (cap ? ",cap=" + std::to_string(cap) : std::string());
         return s.str();
     }
 };
@@ -59,6 +67,7 @@ std::vector<Obj> g_data, g_data_big;
 void body(const Cfg& c) {
     auto& env = osmium::detail::g_env;
     env.clear();
+    g_cap = static_cast<std::size_t>(c.cap);
     if (!c.qsize.empty()) { env["OSMIUM_MAX_INPUT_QUEUE_SIZE"] = c.qsize; env["OSMIUM_MAX_OSMDATA_QUEUE_SIZE"] = c.qsize; env["OSMIUM_MAX_WORK_QUEUE_SIZE"] = c.qsize; }
     if (!c.pbf_pool) env["OSMIUM_USE_POOL_THREADS_FOR_PBF_PARSING"] = "off";
     std::vector<std::string> got;
@@ -129,6 +138,8 @@ int main(int argc, char** argv) {
     write_pbf(g_dir + "/inbig.pbf", g_data_big, true);
     write_file(g_dir + "/inbig.o5m", to_o5m(g_data_big));
 
+    bool capsweep = false;
+    for (auto& x : m.rest()) if (x == "--capsweep") capsweep = true;
     struct Job { Cfg c; vsched::Options o; };
     std::vector<Job> jobs;
     auto add = [&](const Cfg& c, int kmax, bool delay, int workers) {
@@ -136,6 +147,21 @@ int main(int argc, char** argv) {
         jobs.push_back({c, o});
     };
     const char* fmts[] = {"opl", "osm", "pbf", "o5m"};
+    if (capsweep) {
+        // every initial capacity of the parsers' buffers from 64 to 640 bytes in steps of 8 (so that for some capacity every builder
+        // call of the decoders is the one at which the buffer grows / a nested buffer starts), deterministic schedule
+        for (auto fmt : fmts) for (int cap = 64; cap <= 640; cap += 8) {
+            Cfg c{fmt, 1 + (cap / 8) % 2, (cap / 16) % 2 ? "2" : "", 7, (cap / 32) % 2 != 0, true, true, (cap / 64) % 2 != 0};
+            c.cap = cap;
+            add(c, 0, true, 1);
+            if (cap % 24 == 16 || T) { Cfg b = c; b.big = true; add(b, 0, true, 1); }
+        }
+        for (auto& j : jobs) { std::string name = "D:" + j.c.name(); if (m.replay_mode()) m.run(name, [&] { body(j.c); }, j.o); else { vsched::Options o = j.o; o.min_bound = 0; o.max_bound = 0; m.run(name, [&] { body(j.c); }, o); } }
+        int rc2 = m.finish();
+        for (auto f : {"/in.opl", "/in.osm", "/in.pbf", "/in.o5m", "/inbig.opl", "/inbig.osm", "/inbig.pbf", "/inbig.o5m"}) unlink((g_dir + f).c_str());
+        rmdir(g_dir.c_str());
+        return rc2;
+    }
     // (1) covering subset: each option value with each pool size, per format; deeper bounds
     for (auto fmt : fmts) for (int pool : {1, 2}) {
         std::vector<Cfg> cover = {
